@@ -744,7 +744,26 @@ class NF:
     def _mkcall(self, fname, args, kws, fdeps=frozenset(), fg=frozenset(), nondiff=False):
         deps = frozenset(fdeps).union(*[a.deps for a in args], *[v.deps for v in kws.values()])
         g = frozenset() if nondiff else frozenset(fg).union(*[a.gdeps for a in args], *[v.gdeps for v in kws.values()])
-        if fname.split(".")[-1] in ("min", "max", "minimum", "maximum") and len(args) >= 2 and not kws:
+        short_ = fname.split(".")[-1]
+        if short_ == "clip" and kws and len(args) <= 3:
+            lo_k = next((k for k in ("a_min", "min", "min_val") if k in kws), None)
+            hi_k = next((k for k in ("a_max", "max", "max_val") if k in kws), None)
+            if len(args) == 1 and lo_k and hi_k and len(kws) == 2:
+                args, kws = [args[0], kws[lo_k], kws[hi_k]], {}
+            elif len(args) == 2 and hi_k and len(kws) == 1:
+                args, kws = [args[0], args[1], kws[hi_k]], {}
+        if short_ == "clip" and len(args) == 3 and not kws:
+            # clip(x, lo, hi) == minimum(maximum(x, lo), hi) is symmetric in (x, lo): canonical order of the first two
+            args = sorted(args[:2], key=lambda a: a.canon()) + [args[2]]
+        if short_ == "minimum" and len(args) == 2 and not kws:
+            # minimum(hi, maximum(lo, x)) is jnp.clip(x, lo, hi): same canonical atom
+            inner = [(i, self.meta.get(a.single_atom() or "", {})) for i, a in enumerate(args)]
+            mx = [(i, m_) for i, m_ in inner if m_.get("fn", "").split(".")[-1] == "maximum" and len(m_.get("args", [])) == 2 and not m_.get("kws")]
+            if len(mx) == 1:
+                i, m_ = mx[0]
+                hi = args[1 - i]
+                return self._mkcall("clip", list(m_["args"]) + [hi], {}, fdeps, fg, nondiff)
+        if short_ in ("min", "max", "minimum", "maximum") and len(args) >= 2 and not kws:
             args = sorted(args, key=lambda a: a.canon())   # commutative: one canonical argument order
         txt = ", ".join([a.canon() for a in args] + [f"{k}={v.canon()}" for k, v in sorted(kws.items())])
         name = f"{fname}({txt})"
